@@ -308,7 +308,15 @@ def _outpath_case(args):
                  "same-as-input": first,
                  "input-stem": first.with_suffix(""),
                  "input-stem-other-suffix": first.with_suffix(".new"),
+                 # the input again, spelled differently
+                 "same-via-dotdot": d / "sub" / ".." / first.name,
+                 "same-relative": pathlib.Path(first.name),
+                 "stem-via-dotdot": d / "sub" / ".." / first.stem,
                  }[how]
+        (d / "sub").mkdir(exist_ok=True)
+        here = os.getcwd()
+        if how == "same-relative":
+            os.chdir(d)
         before = {p: sha(p) for p in ins}
         fn = getattr(cli, task)
         try:
@@ -319,6 +327,8 @@ def _outpath_case(args):
             status = "ok"
         except BaseException as e:
             status = f"{type(e).__name__}: {e}"
+        finally:
+            os.chdir(here)
         for p, h in before.items():
             if not p.exists():
                 out.append(violation(
@@ -384,7 +394,9 @@ def run(ctx):
     oitems = [(t, how, scratch)
               for t in ("compress", "repack", "condense", "join")
               for how in ("other-suffix", "no-suffix", "same-as-input",
-                          "input-stem", "input-stem-other-suffix")]
+                          "input-stem", "input-stem-other-suffix",
+                          "same-via-dotdot", "same-relative",
+                          "stem-via-dotdot")]
     for vs in par.pmap(_outpath_case, oitems):
         viols.extend(vs)
     statuses = {}
